@@ -619,8 +619,8 @@ BUFMUT_MODELS = {
     r"^Vec::<u8>::len$": m_vec_len,
     r"core::num::<impl [iu]\d+>::to_be_bytes$": m_to_be_bytes,
     r"^<usize as TryInto<[iu]\d+>>::try_into$": m_try_into_int,
-    r"^<std::result::Result<.*> as Try>::branch$": m_result_branch,
-    r" as FromResidual<std::result::Result<(?:std::convert::)?Infallible, .*>>>::from_residual$": m_result_from_residual,
+    r"^<(?:std::result::)?Result<.*> as Try>::branch$": m_result_branch,
+    r" as FromResidual<(?:std::result::)?Result<(?:std::convert::)?Infallible, .*>>>::from_residual$": m_result_from_residual,
     r"core::str::<impl str>::as_bytes$": m_str_as_bytes,
     r"^Option::<.*>::is_some$": m_option_is_some_generic,
 }
